@@ -5,7 +5,7 @@
 //   -DCFG_IMPL=0|1     0 = amc::FlatSet, 1 = amc::SmallSet
 //   -DCFG_N=<n>        SmallSet inline capacity (also N of a SmallVector / FixedCapacityVector underlying vector)
 //   -DCFG_BACK=0|1     SmallSet backing set: 0 = std::set, 1 = amc::FlatSet
-//   -DCFG_UVEC=0..3    FlatSet underlying vector: 0 = amc::vector, 1 = SmallVector<T,CFG_N>, 2 = FixedCapacityVector<T,64>,
+//   -DCFG_UVEC=0..3    FlatSet underlying vector: 0 = amc::vector, 1 = SmallVector<T,CFG_N>, 2 = FixedCapacityVector<T,CFG_UCAP> (default 64),
 //                      3 = std::vector
 //   -DCFG_CMP=0..3     0 = std::less, 1 = std::greater, 2 = ModLess (coarse: compares v % 5, stateless),
 //                      3 = StatefulLess (compares v % m, m given at construction; default constructed m = 1000003)
@@ -105,13 +105,43 @@ using Cmp = StatefulLess;
 static Cmp makeCmp() { return Cmp(7); }
 #endif
 
+// SmallSet configurations count the allocator requests of the backing set (the inline-storage promise of C05);
+// FlatSet configurations keep amc::allocator (realloc path of the underlying vector)
+static long gAllocCalls = 0;
+template <class T>
+struct CountAlloc {
+  using value_type = T;
+  CountAlloc() = default;
+  template <class U>
+  CountAlloc(const CountAlloc<U> &) {}
+  T *allocate(size_t n) {
+    ++gAllocCalls;
+    return static_cast<T *>(::operator new(n * sizeof(T)));
+  }
+  void deallocate(T *p, size_t) { ::operator delete(p); }
+  template <class U>
+  struct rebind {
+    using other = CountAlloc<U>;
+  };
+  template <class U>
+  bool operator==(const CountAlloc<U> &) const { return true; }
+  template <class U>
+  bool operator!=(const CountAlloc<U> &) const { return false; }
+};
+#if CFG_IMPL == 0
 using Alloc = amc::allocator<Elem>;
+#else
+using Alloc = CountAlloc<Elem>;
+#endif
 #if CFG_UVEC == 0
 using UVec = amc::vector<Elem, Alloc>;
 #elif CFG_UVEC == 1
 using UVec = amc::SmallVector<Elem, CFG_N, Alloc>;
 #elif CFG_UVEC == 2
-using UVec = amc::FixedCapacityVector<Elem, 64>;
+#ifndef CFG_UCAP
+#define CFG_UCAP 64
+#endif
+using UVec = amc::FixedCapacityVector<Elem, CFG_UCAP>;
 #else
 using UVec = std::vector<Elem, Alloc>;
 #endif
@@ -561,7 +591,7 @@ int main() {
     std::cout << n << " " << res << " ret=" << ret;
     for (int c = 0; c < gPool; ++c) std::cout << " | " << showCont(c);
     std::cout << " | cmps=" << cmpsOp << " # oracle=" << oracle << " faults=" << faultsStr() << " live="
-              << (CFG_CAT == 0 ? 0 : (long)G().live.size()) << "\n";
+              << (CFG_CAT == 0 ? 0 : (long)G().live.size()) << " allocs=" << gAllocCalls << "\n";
     G().faults.clear();
     ++n;
   }
